@@ -39,6 +39,12 @@
      ObsOK   every observation computed the way the code computes it (linear/binary search,
              Inspect loop, First/Rest iteration, object.Rest dispatch) equals the abstract one
      EqOK    Cmp-style equality of `m` with each literal operand <=> abstract equality
+     ConstOK   held by a constant: setting it again to the same map built another way is accepted, to a
+               different map refused; K[k] = v / del(K[k]) are refused unless they change nothing
+               (named deviation IdenticalByRep violates it)
+     EarlierOK no value is made by writing into storage where another value's pairs live: big maps carry
+               their capacity explicitly (spare, live); named deviation AppendInPlace violates it
+     CapOK     spare / live within bounds
 
    Key order: the documented order of object.Cmp, stated here (KCmp): numbers (integers and
    floats together, by mathematical value) < booleans (false < true) < nil < strings
@@ -58,11 +64,18 @@ CONSTANTS Keys,             \* sequence of key records [t, n | s | e, txt]
           EscapingPointer,  \* BOOLEAN, see above
           TrackStale,       \* BOOLEAN: keep the stale slots SmallMap.Delete leaves behind (MC) or clear them (GEN)
           LoopAt,           \* set of iteration numbers at which a `for` body changes the iterated map ({} = no such cases)
-          EmitOn            \* BOOLEAN: emit every transition (GEN)
+          EmitOn,           \* BOOLEAN: emit every transition (GEN)
+          AppendInPlace,    \* BOOLEAN, named deviation: BigMap.Append writes into the left operand's spare capacity (see BigAppend)
+          IdenticalByRep,   \* BOOLEAN, named deviation: object.Identical answers false for two maps of different representation
+          MaxSpare,         \* spare capacity of a big map is told apart up to this many slots (more = "MaxSpare or more")
+          ForkLits          \* indexes into Lits: right operands of the two-results-from-one-operand cases (ForkA)
 
 VARIABLES m, abs, hist
 vars == <<m, abs, hist>>
 view == <<m, abs>>
+\* GEN: states that differ only in the storage underneath (spare capacity) are one state - the real code decides what
+\* its storage looks like on the witness history; MC tells them apart (view)
+viewG == <<[rep |-> m.rep, kv |-> m.kv, len |-> m.len], abs>>
 
 KIdx == 1..Len(Keys)
 VIdx == 1..Len(Vals)
@@ -149,14 +162,32 @@ AbsObs(S) ==
 Zero == <<0, 0>>
 Pad(kv) == [j \in 1..MaxSmall |-> IF j <= Len(kv) THEN kv[j] ELSE Zero]
 Small(kv, n) == [rep |-> "small", kv |-> kv, len |-> n]
-Big(kv)      == [rep |-> "big", kv |-> kv, len |-> Len(kv)]
+(* A big map is a slice: its pairs, and the rest of its backing array up to the capacity.
+     spare  slots of the backing array after the last pair (capacity - len)
+     live   how many of these slots, counted from the map's end, hold pairs that belong to ANOTHER map
+            value: the map this one is a view of (Range / Rest share the array), or a result that was
+            appended in place.  A write into such a slot changes that other value.
+     hurt   TRUE when making this value wrote into live slots (an earlier result was changed)
+   Intermediate values carry exact numbers; a value that is bound to the variable is normalised
+   (Norm): spare and live saturate at MaxSpare, so `spare` is a lower bound, exact below MaxSpare. *)
+Max0(n)      == IF n < 0 THEN 0 ELSE n
+BigC(kv, spare, live) == [rep |-> "big", kv |-> kv, len |-> Len(kv), spare |-> spare,
+                          live |-> IF Max0(live) > spare THEN spare ELSE Max0(live), hurt |-> FALSE]
+Big(kv)      == BigC(kv, 0, 0)                                       \* exactly as long as its array
+\* append / slices.Insert beyond the capacity (runtime growslice below 256 elements: double, or what is needed;
+\* size-class rounding ignored - allocator policy, only the amount of spare room depends on it)
+GrowCap(c, need) == IF 2 * c >= need THEN 2 * c ELSE need
 EmptySmall   == Small(Pad(<<>>), 0)                                  \* NewMap(), SmallMap{}
-NewMapSize(n) == IF n <= MaxSmall THEN EmptySmall ELSE Big(<<>>)
+NewMapSize(n) == IF n <= MaxSmall THEN EmptySmall ELSE BigC(<<>>, n, 0)   \* make([]keyValuePair, 0, n)
 IsSmall(x)   == x.rep \in {"small", "psmall"}
 Elems(x)     == SubSeq(x.kv, 1, x.len)                               \* mapElements()
 NilObj       == [rep |-> "nil", kv |-> <<>>, len |-> 0]               \* object.NULL   (object.Len = 0)
 ErrObj       == [rep |-> "error", kv |-> <<>>, len |-> -1]            \* object.Error  (object.Len = -1)
-Norm(x)      == IF TrackStale \/ ~IsSmall(x) THEN x ELSE [x EXCEPT !.kv = Pad(Elems(x))]
+Sat(n)       == IF n > MaxSpare THEN MaxSpare ELSE n
+Norm(x)      == IF ~IsSmall(x) THEN [x EXCEPT !.spare = Sat(x.spare), !.live = Sat(x.live)]
+                ELSE IF TrackStale THEN x ELSE [x EXCEPT !.kv = Pad(Elems(x))]
+\* object.CopyMap (slices.Clone): what the evaluator writes into (index assignment, del) since /repo 58006fb
+CopyMap(x)   == IF IsSmall(x) THEN x ELSE Big(x.kv)
 
 \* SmallMap.get: <<found, index (0-based) where the key is or would be inserted>>
 RECURSIVE SmallGet(_, _, _)
@@ -194,24 +225,31 @@ SmallSet(x, k, v) ==
           THEN Big(SubSeq(x.kv, 1, i) \o <<<<k, v>>>> \o SubSeq(x.kv, i + 1, nl - 1))   \* promotion
           ELSE Small([ShiftRight(x.kv, nl - 1, i) EXCEPT ![i + 1] = <<k, v>>], nl)
 
-\* BigMap.Set (in place)
+\* BigMap.Set (in place: the callers hand it storage of their own - a literal or a merge being built, a CopyMap)
 BigSet(x, k, v) ==
   LET g == BigGet(x, k)
       i == g[2]
-  IN IF g[1] THEN Big([x.kv EXCEPT ![i + 1] = <<x.kv[i + 1][1], v>>])
-     ELSE Big(SubSeq(x.kv, 1, i) \o <<<<k, v>>>> \o SubSeq(x.kv, i + 1, Len(x.kv)))    \* slices.Insert
+      kv2 == SubSeq(x.kv, 1, i) \o <<<<k, v>>>> \o SubSeq(x.kv, i + 1, Len(x.kv))      \* slices.Insert
+  IN IF g[1] THEN [x EXCEPT !.kv = [x.kv EXCEPT ![i + 1] = <<x.kv[i + 1][1], v>>]]
+     ELSE IF x.spare > 0
+          THEN [BigC(kv2, x.spare - 1, x.live - 1) EXCEPT !.hurt = x.hurt \/ x.live > 0]   \* shifts within the array
+          ELSE [BigC(kv2, GrowCap(Len(x.kv), Len(kv2)) - Len(kv2), 0) EXCEPT !.hurt = x.hurt]  \* new, larger array
 
 ImplSet(x, k, v) == IF IsSmall(x) THEN SmallSet(x, k, v) ELSE BigSet(x, k, v)
 
 \* Delete of a key that is present (the caller keeps its map when the key is absent)
 SmallDelete(x, k) == LET w == SmallGet(x, k, 0)[2] IN Small(ShiftLeft(x.kv, w, x.len - 1), x.len - 1)  \* slot len-1 stays stale
-BigDelete(x, k)   == LET w == BigGet(x, k)[2] IN Big(SubSeq(x.kv, 1, w) \o SubSeq(x.kv, w + 2, Len(x.kv)))
+\* copy(m.kv[idx:], m.kv[idx+1:]); m.kv = m.kv[:len-1]: the freed slot stays in the capacity
+BigDelete(x, k)   == LET w == BigGet(x, k)[2] IN
+                     [BigC(SubSeq(x.kv, 1, w) \o SubSeq(x.kv, w + 2, Len(x.kv)), x.spare + 1, IF x.live > 0 THEN x.live + 1 ELSE 0)
+                        EXCEPT !.hurt = x.hurt]
 ImplDelete(x, k)  == IF IsSmall(x) THEN SmallDelete(x, k) ELSE BigDelete(x, k)
 
 \* Map.Rest() for len >= 2 and SmallMap.Range / BigMap.Range(l, r), 0 <= l <= r <= len
 MethodRange(x, l, r) ==
   IF IsSmall(x) THEN Small(Pad(SubSeq(x.kv, l + 1, r)), r - l)
-  ELSE IF r - l > MaxSmall THEN Big(SubSeq(x.kv, l + 1, r))          \* shares the backing array
+  ELSE IF r - l > MaxSmall                                           \* m.kv[l:r] shares the backing array: the pairs
+       THEN BigC(SubSeq(x.kv, l + 1, r), (x.len - r) + x.spare, (x.len - r) + x.live)   \* after r are in its capacity
        ELSE Small(Pad(SubSeq(x.kv, l + 1, r)), r - l)                \* demotion
 MethodRest(x) == IF x.len <= 1 THEN NilObj ELSE MethodRange(x, 1, x.len)
 
@@ -226,8 +264,20 @@ SmallAppend(x, right) ==
   IF right.len <= MaxSmall
   THEN StoreAll([rep |-> IF EscapingPointer THEN "psmall" ELSE "small", kv |-> Pad(Elems(x)), len |-> x.len],
                Elems(right), 1)
-  ELSE StoreAll(Big(Elems(x)), Elems(right), 1)
-BigAppend(x, right) == StoreAll(Big(x.kv), Elems(right), 1)
+  ELSE StoreAll(BigC(Elems(x), right.len, 0), Elems(right), 1)        \* make(.., 0, m.len + right.Len())
+(* BigMap.Append: a new array sized for all keys being new, the left pairs copied, the right ones Set:
+   what is left over (keys that were there already) is spare capacity of the result.
+   Named deviation AppendInPlace: when every right key sorts after the last left key the result is
+   `append(m.kv, right...)` - Go's append writes into the spare capacity of the LEFT operand's array when
+   the pairs fit, so the result shares that array and whatever lived in those slots is overwritten.  *)
+InPlaceOK(x, right) == AppendInPlace /\ x.len > 0 /\ right.len > 0 /\ Ord[x.kv[x.len][1]][right.kv[1][1]] < 0
+BigAppend(x, right) ==
+  IF InPlaceOK(x, right)
+  THEN LET kv2 == x.kv \o Elems(right) IN
+       IF right.len <= x.spare
+       THEN [BigC(kv2, x.spare - right.len, x.live - right.len) EXCEPT !.hurt = x.live > 0]
+       ELSE BigC(kv2, GrowCap(x.len + x.spare, Len(kv2)) - Len(kv2), 0)
+  ELSE StoreAll(BigC(x.kv, right.len, 0), Elems(right), 1)
 ImplAppend(x, right) == IF IsSmall(x) THEN SmallAppend(x, right) ELSE BigAppend(x, right)
 
 \* eval.evalMapLiteral
@@ -236,6 +286,13 @@ ImplLit(es) == StoreAll(NewMapSize(Len(es)), es, 1)
 \* eval.evalForList: for object.Len(list) > 0 { v = First(list); list = Rest(list); body }
 RECURSIVE ImplIter(_, _)
 ImplIter(list, acc) == IF list.len <= 0 THEN acc ELSE ImplIter(ObjRest(list), Append(acc, list.kv[1]))
+
+\* object.Identical on two maps (what decides whether setting a constant again changes it): the same pairs,
+\* keys and values identical (1 and 1.0 are equal keys but not identical ones) - whatever the representations.
+\* Named deviation IdenticalByRep: a type switch on the Go type that only compares small with small, big with big.
+ImplIdentical(x, y) == /\ IdenticalByRep => (IsSmall(x) <=> IsSmall(y))
+                       /\ x.len = y.len
+                       /\ \A i \in 1..x.len : x.kv[i] = y.kv[i]
 
 \* object.Cmp on two maps = 0
 ImplEquals(x, y) == /\ x.len = y.len
@@ -263,6 +320,12 @@ OpA(op) == op[2]
 OpB(op) == op[3]
 OpJ(op) == op[4]
 
+\* An element of `hist` is the operation followed by the printed form the map had after it: the values the variable
+\* held along the witness history are EARLIER RESULTS, every one of which must still print like that after any later
+\* operation (maps are values; Range / Rest views and spare capacity share storage underneath).
+HOps(h)    == [i \in 1..Len(h) |-> SubSeq(h[i], 1, 4)]
+Earlier(h) == "[" \o Join([i \in 1..Len(h) |-> h[i][5]], ",", 1) \o "]"
+
 (* One line per explored transition: witness history, operation, the ABSTRACT prediction of every
    observation of the result (`exp`), the predicted pairs (`ps`, to build an equal map in another
    order), and - only where the implementation-shaped model with its named deviation predicts
@@ -274,14 +337,14 @@ Emit(h, op, resAbs, resImpl, ch) ==
         io == IF resImpl.rep = "error" THEN [err |-> 1]
               ELSE IF resImpl.rep = "psmall" THEN ImplObs(resImpl) ELSE ao
     IN EmitLine(ToJson(
-         [h |-> h, op |-> op, exp |-> ao, ps |-> APairs(resAbs), ch |-> ch, it |-> "",
-          dev |-> IF io = ao THEN <<>> ELSE io,
+         [h |-> HOps(h), op |-> op, exp |-> ao, ps |-> APairs(resAbs), ch |-> ch, it |-> "",
+          dev |-> IF io = ao THEN <<>> ELSE io, prev |-> Earlier(h),
           rep |-> resImpl.rep, repb |-> m.rep]))
 
 \* the binding takes the value `x` (a map): m = <expr>
 Assign(op, x, S, ch) ==
   /\ m' = Norm(x) /\ abs' = S
-  /\ hist' = IF OpO(op) = "lit" THEN <<op>> ELSE Append(hist, op)
+  /\ LET hop == Append(op, Printed(APairs(S))) IN hist' = IF OpO(op) = "lit" THEN <<hop>> ELSE Append(hist, hop)
   /\ Emit(IF OpO(op) = "lit" THEN <<>> ELSE hist, op, S, Norm(x), ch)
 
 \* the expression is an error in the implementation-shaped model: the binding keeps its value
@@ -290,9 +353,9 @@ Refused(op, S) ==
   /\ Emit(hist, op, S, ErrObj, 2)
 
 LitA(op, es)   == Assign(op, ImplLit(es), ALit(es), 2)                          \* m = {k:v, ...}
-SetA(op, k, v) == Assign(op, ImplSet(m, k, v), ASet(abs, k, v), 2)              \* m[k] = v
+SetA(op, k, v) == Assign(op, ImplSet(CopyMap(m), k, v), ASet(abs, k, v), 2)     \* m[k] = v
 DelA(op, k)    == IF ImplFind(m, k)[1]                                          \* del(m[k])
-                  THEN Assign(op, ImplDelete(m, k), ADel(abs, k), IF AHas(abs, k) THEN 1 ELSE 0)
+                  THEN Assign(op, ImplDelete(CopyMap(m), k), ADel(abs, k), IF AHas(abs, k) THEN 1 ELSE 0)
                   ELSE Assign(op, m, ADel(abs, k), IF AHas(abs, k) THEN 1 ELSE 0)
 RestA(op)      == /\ Cardinality(abs) >= 2                                      \* m = rest(m)
                   /\ LET x == ObjRest(m) IN
@@ -322,13 +385,112 @@ LoopA(op) ==
   /\ UNCHANGED vars
   /\ EmitOn =>
        LET S  == IF OpO(op) = "set" THEN ASet(abs, OpA(op), OpB(op)) ELSE ADel(abs, OpA(op))
-           x  == IF OpO(op) = "set" THEN ImplSet(m, OpA(op), OpB(op))
-                 ELSE IF ImplFind(m, OpA(op))[1] THEN ImplDelete(m, OpA(op)) ELSE m
+           x  == IF OpO(op) = "set" THEN ImplSet(CopyMap(m), OpA(op), OpB(op))
+                 ELSE IF ImplFind(m, OpA(op))[1] THEN ImplDelete(CopyMap(m), OpA(op)) ELSE m
        IN EmitLine(ToJson(
-            [h |-> hist, op |-> op, exp |-> AbsObs(S), ps |-> APairs(S), it |-> IterTxt(APairs(abs)),
+            [h |-> HOps(hist), op |-> op, exp |-> AbsObs(S), ps |-> APairs(S), it |-> IterTxt(APairs(abs)),
              ch |-> IF OpO(op) = "set" THEN 2 ELSE IF AHas(abs, OpA(op)) THEN 1 ELSE 0,
-             dev |-> IF LoopShares(m, OpJ(op)) THEN [shared |-> 1] ELSE <<>>,
+             dev |-> IF LoopShares(m, OpJ(op)) THEN [shared |-> 1] ELSE <<>>, prev |-> Earlier(hist),
              rep |-> x.rep, repb |-> m.rep]))
+
+(* ---- a map held by a CONSTANT (an all caps name): K = m.
+   Setting K again is accepted exactly when the new value is identical to the old one; for maps that is a matter
+   of the pairs, not of how either map came to be.  Ways(S) lists other ways of building the map S (`same`) and
+   two ways of building a different one; a way is a little program of operations of this machine
+   ([o, a, b, j, es]: lit es | set a b | del a | appr es) run from the empty map.
+     kbind w   K = m; K = <way w>        accepted (acc = 1) iff the way builds the same map; K shows S either way
+     kset k v  K = m; K[k] = v           accepted iff that changes nothing; K shows S either way
+     kdel k    K = m; d = del(K[k])      a pair that is there can't be removed: refused (ch = 3), K shows S;
+                                         nothing to remove: d = false (ch = 0).  What del answers agrees with what
+                                         the map holds afterwards.
+   These actions change no state variable (K is another binding): they are emitted for every reachable state. *)
+POp(o, a, b, es) == [o |-> o, a |-> a, b |-> b, j |-> 0, es |-> es]
+Rev(s) == [i \in 1..Len(s) |-> s[Len(s) + 1 - i]]
+Ways(S) ==
+  LET ps  == APairs(S)
+      n   == Len(ps)
+      h   == n \div 2
+      fk  == {k \in KIdx : ~AHas(S, k)}
+      e   == IF fk = {} THEN 0 ELSE CHOOSE k \in fk : \A q \in fk : k <= q
+      dup(qs) == [i \in 1..(Len(qs) + MaxSmall + 1) |-> qs[((i - 1) % Len(qs)) + 1]]    \* every pair again: > MaxSmall entries
+      chg == [ps EXCEPT ![h + 1] = <<ps[h + 1][1], (ps[h + 1][2] % Len(Vals)) + 1>>]
+      W(prog, same) == [prog |-> prog, same |-> same]
+  IN  << W(<<POp("lit", 0, 0, Rev(ps))>>, TRUE) >>
+      \o (IF n = 0 THEN << W(<<POp("lit", 0, 0, <<<<1, 1>>>>)>>, FALSE) >>
+          ELSE << W(<<POp("lit", 0, 0, dup(ps))>>, TRUE),
+                  W(<<POp("lit", 0, 0, SubSeq(ps, 1, h)), POp("appr", 0, 0, Append(Rev(SubSeq(ps, h + 1, n)), ps[n]))>>, TRUE),
+                  W(<<POp("lit", 0, 0, dup(chg))>>, FALSE),
+                  W(<<POp("lit", 0, 0, Rev(chg))>>, FALSE),
+                  W(<<POp("lit", 0, 0, Tail(ps))>>, FALSE) >>)
+      \o (IF e = 0 THEN <<>>
+          ELSE << W(<<POp("lit", 0, 0, Append(ps, <<e, 1>>)), POp("del", e, 0, <<>>)>>, TRUE),       \* had one more pair, shrank
+                  W(<<POp("lit", 0, 0, ps), POp("set", e, 1, <<>>), POp("del", e, 0, <<>>)>>, TRUE) >>)
+
+AStep(S, p) == CASE p.o = "lit"  -> ALit(p.es)
+                 [] p.o = "set"  -> ASet(S, p.a, p.b)
+                 [] p.o = "del"  -> ADel(S, p.a)
+                 [] p.o = "appr" -> AAppend(S, ALit(p.es))
+IStep(x, p) == CASE p.o = "lit"  -> ImplLit(p.es)
+                 [] p.o = "set"  -> ImplSet(CopyMap(x), p.a, p.b)
+                 [] p.o = "del"  -> IF ImplFind(x, p.a)[1] THEN ImplDelete(CopyMap(x), p.a) ELSE x
+                 [] p.o = "appr" -> ImplAppend(x, ImplLit(p.es))
+RECURSIVE ARun(_, _, _)
+ARun(S, prog, i) == IF i > Len(prog) THEN S ELSE ARun(AStep(S, prog[i]), prog, i + 1)
+RECURSIVE IRun(_, _, _)
+IRun(x, prog, i) == IF i > Len(prog) THEN x ELSE IRun(IStep(x, prog[i]), prog, i + 1)
+
+\* eval.deleteMapEntry / evalIndexAssigment on a constant: copy, change, store; the store is refused unless identical
+ImplKDel(x, k)    == IF ~ImplFind(x, k)[1] THEN 0
+                     ELSE IF ImplIdentical(x, ImplDelete(CopyMap(x), k)) THEN 1 ELSE 3
+ImplKSet(x, k, v) == IF ImplIdentical(x, ImplSet(CopyMap(x), k, v)) THEN 1 ELSE 0
+AbsKDel(S, k)     == IF AHas(S, k) THEN 3 ELSE 0
+AbsKSet(S, k, v)  == IF ASet(S, k, v) = S THEN 1 ELSE 0
+
+ConstLine(op, acc, ch, alt) ==
+  EmitLine(ToJson([h |-> HOps(hist), op |-> op, exp |-> AbsObs(abs), ps |-> APairs(abs), it |-> "", ch |-> ch,
+                   acc |-> acc, alt |-> alt, dev |-> <<>>, prev |-> Earlier(hist), rep |-> m.rep, repb |-> m.rep]))
+ConstA ==
+  /\ m.rep # "psmall"
+  /\ UNCHANGED vars
+  /\ EmitOn =>
+       /\ \A w \in 1..Len(Ways(abs)) : LET W == Ways(abs)[w] IN
+             ConstLine(<<"kbind", w, 0, 0>>, IF W.same THEN 1 ELSE 0, 2, W.prog)
+       /\ \A k \in KIdx : ConstLine(<<"kdel", k, 0, 0>>, 0, AbsKDel(abs, k), <<>>)
+       /\ \A k \in KIdx : ConstLine(<<"kset", k, 1, 0>>, AbsKSet(abs, k, 1), 2, <<>>)
+
+(* ---- two results from one operand: a = m + Lits[i]; b = m + Lits[j].  a is observed AFTER b was made
+   (and m, b with the earlier results).  At the implementation level: if a was appended in place, the spare
+   slots of m's array now hold a's pairs (HeldAfter); making b must not write there.                        *)
+HeldAfter(x, right) == IF ~IsSmall(x) /\ InPlaceOK(x, right) /\ right.len <= x.spare
+                       THEN [x EXCEPT !.live = IF x.live > right.len THEN x.live ELSE right.len] ELSE x
+ImplFork(x, r1, r2) == ImplAppend(HeldAfter(x, r1), r2)
+Hurt(x) == ~IsSmall(x) /\ x.hurt
+ForkA(i, j) ==
+  /\ m.rep # "psmall"
+  /\ UNCHANGED vars
+  /\ EmitOn =>
+       LET A == AAppend(abs, ALit(Lits[i]))
+           B == AAppend(abs, ALit(Lits[j]))
+           a == ImplAppend(m, ImplLit(Lits[i]))
+           hb == Append(Append(hist, <<"", 0, 0, 0, Printed(APairs(abs))>>), <<"", 0, 0, 0, Printed(APairs(B))>>)
+       IN EmitLine(ToJson([h |-> HOps(hist), op |-> <<"fork", i, j, 0>>, exp |-> AbsObs(A), ps |-> APairs(A), it |-> "", ch |-> 2,
+                           dev |-> <<>>, prev |-> Earlier(hb), rep |-> a.rep, repb |-> m.rep]))
+
+(* ---- a merge onto a view: v = m[l:r] (a = 0: all but the last pair, a = 1: all but the first - what rest(m) is);
+   w = v + Lits[j].  w is observed; m and v are earlier results.  A big map's Range shares its array. *)
+ViewL(a, n) == IF a = 0 THEN 0 ELSE 1
+ViewR(a, n) == IF a = 0 THEN n - 1 ELSE n
+ViewA(a, j) ==
+  /\ m.rep # "psmall" /\ Cardinality(abs) >= 1
+  /\ UNCHANGED vars
+  /\ EmitOn =>
+       LET n == Cardinality(abs)
+           V == ARange(abs, ViewL(a, n), ViewR(a, n))
+           A == AAppend(V, ALit(Lits[j]))
+           w == ImplAppend(ObjRange(m, ViewL(a, n), ViewR(a, n)), ImplLit(Lits[j]))
+           hb == Append(Append(hist, <<"", 0, 0, 0, Printed(APairs(abs))>>), <<"", 0, 0, 0, Printed(APairs(V))>>)
+       IN EmitLine(ToJson([h |-> HOps(hist), op |-> <<"view", a, j, 0>>, exp |-> AbsObs(A), ps |-> APairs(A), it |-> "", ch |-> 2,
+                           dev |-> <<>>, prev |-> Earlier(hb), rep |-> w.rep, repb |-> m.rep]))
 
 Init == /\ m = EmptySmall /\ abs = {} /\ hist = <<>>
         /\ (EmitOn => EmitLine(ToJson([universe |-> Keys, vals |-> Vals, lits |-> Lits])))
@@ -343,6 +505,9 @@ Next == \/ (m = EmptySmall /\ \E i \in 1..Len(Lits) : LitA(Op("lit", i, 0), Lits
         \/ \E i \in 1..Len(Lits) : AppLA(Op("appl", i, 0), Lits[i])
         \/ SelfA(Op("self", 0, 0))
         \/ \E j \in LoopAt, k \in KIdx : LoopA(LoopOp("set", k, 1, j)) \/ LoopA(LoopOp("del", k, 0, j))
+        \/ (EmitOn /\ ConstA)
+        \/ (EmitOn /\ \E i \in ForkLits, j \in ForkLits : ForkA(i, j))
+        \/ (EmitOn /\ \E a \in {0, 1}, j \in ForkLits : ViewA(a, j))
 
 Spec == Init /\ [][Next]_vars
 
@@ -360,6 +525,24 @@ AbsOK == AbsOf(m) = abs /\ Cardinality(abs) = m.len
 ObsOK == ImplObs(m) = AbsObs(abs)
 
 EqOK == \A i \in 1..Len(Lits) : ImplEquals(m, ImplLit(Lits[i])) <=> AEqual(abs, ALit(Lits[i]))
+
+\* a constant holding the map: re-binding / K[k] = v / del(K[k]) answer as the abstract map says, whatever the representation
+ConstOK == /\ \A w \in 1..Len(Ways(abs)) :
+                LET W == Ways(abs)[w]
+                    x == IRun(EmptySmall, W.prog, 1)
+                IN /\ (ARun({}, W.prog, 1) = abs) = W.same
+                   /\ ImplIdentical(m, x) = W.same /\ ImplIdentical(x, m) = W.same
+           /\ \A k \in KIdx : ImplKDel(m, k) = AbsKDel(abs, k)
+           /\ \A k \in KIdx, v \in VIdx : ImplKSet(m, k, v) = AbsKSet(abs, k, v)
+
+\* earlier results are unchanged: no value is made by writing into slots where another value's pairs live -
+\* neither by the transition that made m, nor by the second of two merges from m
+EarlierOK == /\ ~Hurt(m)
+             /\ m.rep # "psmall" =>
+                  /\ \A i \in ForkLits, j \in ForkLits : ~Hurt(ImplFork(m, ImplLit(Lits[i]), ImplLit(Lits[j])))
+                  /\ m.len >= 1 => \A a \in {0, 1}, j \in ForkLits :
+                        ~Hurt(ImplAppend(ObjRange(m, ViewL(a, m.len), ViewR(a, m.len)), ImplLit(Lits[j])))
+CapOK == ~IsSmall(m) => m.spare \in 0..MaxSpare /\ m.live \in 0..m.spare
 
 \* the model-checked universes are listed in the key order they define (constant-level, checked as an invariant)
 KeysListedInOrder == \A i \in KIdx : \A j \in KIdx : i <= j => Ord[i][j] <= 0
@@ -390,8 +573,12 @@ LitsFor(n) ==
       <<<<1, 1>>, <<1, 2>>, <<1, 1>>, <<1, 2>>, <<1, 1>>>>,
       <<<<3, 1>>, <<2, 2>>, <<n, 1>>, <<3, 2>>, <<2, 1>>, <<n, 2>>>>,
       <<<<5, 1>>, <<4, 1>>, <<3, 1>>, <<2, 1>>, <<1, 1>>>>,
-      [i \in 1..n |-> <<n + 1 - i, 1 + (i % 2)>>]
+      [i \in 1..n |-> <<n + 1 - i, 1 + (i % 2)>>],
+      <<<<n, 1>>>>,                          \* 10, 11: one pair at / near the upper end of the key order
+      <<<<n - 2, 2>>>>
   >>
+FL  == {3, 8, 10, 11}      \* MC
+FLG == {3, 10, 11}         \* GEN
 L8 == LitsFor(8)
 L7 == LitsFor(7)
 L6 == LitsFor(6)
